@@ -125,7 +125,12 @@ def run (ctx : Algo.Ctx) (op : String) (args impl : List String) : Outcome :=
         | .term as => { r with ts := step (topOf r) r.ts (as.filterMap id) }
       -- geometry may have changed: the list is constrained again before it is drawn
       let r' := { r' with ts := constrain (topOf r') r'.ts }
-      { r' with xoffset := (promptScroll (roOf r') r'.ts.input r'.ts.cx r'.xoffset).1 }
+      -- the scroll offset of the query is only recomputed when the prompt is painted: not while the input is hidden
+      -- beginning-of-line resets the scroll offset itself (also while the input is hidden)
+      let xo0 := match a with
+        | .term as => if as.any (· == some Action.beginningOfLine) && r.ts.outcome.isNone then 0 else r'.xoffset
+        | _ => r'.xoffset
+      { r' with xoffset := if r'.ts.inputless then xo0 else (promptScroll (roOf r') r'.ts.input r'.ts.cx xo0).1 }
     let states := (acts.foldl (fun (acc : RS × List RS) a => let r := stepRS acc.1 a; (r, acc.2 ++ [r])) (init, [init])).2
     let live := states.takeWhile (·.ts.outcome.isNone)
     -- a query wider than its room is scrolled horizontally: outside the model, the prompt row is
